@@ -31,6 +31,9 @@ def gen_history(rng, max_ops=6, two=False):
                 o["clean_start"] = True
             steps.append({"run": [{"wl": rng.choice([0, 1]) if two else 0, "opts": o, "out": rng.choice(outs)}],
                           "sched": {"policy": "serial", "seed": 0}})
+            if not two and o.get("gtf_repr") != "db" and i < n - 1 and rng.random() < 0.12:
+                # the annotation is replaced while this run converts it
+                steps[-1]["during"] = {"op": "edit_gtf", "wl": 0, "nth_commit": rng.choice([2, 3, 5, 9, 14])}
             have_run = True
         elif r < 0.75:
             steps.append({"op": "edit_gtf", "wl": 0})
@@ -90,6 +93,10 @@ def run(chk, orch):
                 ([{"spec": T}], [R(0, "A", complete_genedb=True), R(0, "B"), R(0, "A", complete_genedb=True)]),
                 ([{"spec": T}], [R(0, "A"), {"op": "restore_old_gtf", "wl": 0}, R(0, "A"), R(0, "B")]),
                 ([{"spec": T}], [R(0, "A", gtf_repr="gz"), {"op": "edit_gtf", "wl": 0}, R(0, "A", gtf_repr="gz"), R(0, "B")]),
+                # the annotation is replaced WHILE a run converts it (at the 3rd / 9th commit of the conversion): later runs
+                # must not be handed the conversion of the old content (the run that overlapped the edit is not judged)
+                ([{"spec": T}], [dict(R(0, "A"), during={"op": "edit_gtf", "wl": 0, "nth_commit": 3}), R(0, "B"), R(0, "A")]),
+                ([{"spec": T}], [dict(R(0, "A", gtf_repr="gz"), during={"op": "edit_gtf", "wl": 0, "nth_commit": 9}), R(0, "A", gtf_repr="gz")]),
             ]
             for ti, (wl_, st_) in enumerate(templates):
                 a = {"workloads": wl_, "steps": st_}
@@ -227,6 +234,9 @@ def run(chk, orch):
                     break
                 ar = sr["actors"][0]
                 o = st["run"][0]["opts"]
+                if st.get("during") and sr.get("during_fired"):
+                    chk.faults["annotation_replaced_during_conversion"] += 1
+                    continue        # may legitimately work with the old or the new content
                 prefix_ops = [("run" if "run" in x else x["op"]) for x in a["steps"][:si]]
                 attrs = {"repr": o.get("gtf_repr", "gtf"), "complete": bool(o.get("complete_genedb")),
                          "after": ",".join(prefix_ops[-3:])}
